@@ -19,7 +19,7 @@ RULE = (
     "non-trivial = pov != 0.5 or estimator 'cor' or references not leading the channel list"
 )
 ASSUMPTIONS = [
-    "entries compared relative to the geometric mean of the two auto-spectra with tolerance 1e-11*cond(G_ref,ref(f)) per line; lines with cond > 1e8 not judged",
+    "entries compared relative to (amplitude of the row channel) x (amplitude of the reference channel) with tolerance 1e-11*cond(G_ref,ref(f)) per line, cond taken after diagonal equilibration; lines with cond > 1e8 not judged",
     "fdd.SD_est is the reference for the merged matrix (decided by C13)",
 ]
 
@@ -50,7 +50,8 @@ def rec_case(draw, level="function"):
             "fs": fs, "seed": draw(st.integers(0, 2**32 - 1)), "alg": draw(st.sampled_from(["FDD_MS", "EFDD_MS", "pLSCF_MS"])),
             "gain": draw(st.sampled_from([1.0, 3.0, -0.2, 25.0])), "gsetup": draw(st.integers(0, 3)),
             "level": draw(st.sampled_from([1.0, 1.0, 1e-5, 1e4, 1e-9])),  # overall signal level (accelerations in g, strains, counts ...)
-            "pov2": draw(st.sampled_from([0.0, 0.5, 0.25])), "method2": draw(st.sampled_from(["per", "cor"]))}
+            "pov2": draw(st.sampled_from([0.0, 0.5, 0.25])), "method2": draw(st.sampled_from(["per", "cor"])),
+            "chanscale": draw(st.sampled_from([None, None, [0, 2e-5], [1, 3e4], [2, 1e-6]]))}  # one channel recorded in other units (a displacement transducer among accelerometers)
 
 
 def _recording(case, ntot, independent=False):
@@ -61,7 +62,10 @@ def _recording(case, ntot, independent=False):
     mix = rng.normal(size=(ntot + 2, ntot)) * 0.6 + np.eye(ntot + 2, ntot)
     x = e @ mix
     y = x[8:] + 0.8 * x[7:-1] - 0.5 * x[5:-3] + 0.3 * x[:-8]
-    return y * case.get("level", 1.0)
+    y = y * case.get("level", 1.0)
+    if case.get("chanscale"):
+        y[:, case["chanscale"][0] % ntot] *= case["chanscale"][1]
+    return y
 
 
 def _tags(j, case):
@@ -80,11 +84,12 @@ def _compare(j, tag, Sy, ref, cond):
     if not j.check(Sy.shape == ref.shape, f"{tag}-shape", lambda: f"{Sy.shape} vs {ref.shape}"):
         return
     k = ref.shape[1]
-    auto_ref = np.abs(np.einsum("iik->ik", ref[:k]))  # reference autos (k, nf)
-    # row scale: use the magnitude of the row's strongest entry against the references
-    rowmag = np.max(np.abs(ref), axis=1)  # (n_all, nf)
-    den = np.sqrt(np.maximum(rowmag[:, None, :] * np.sqrt(auto_ref * auto_ref)[None, :, :], 1e-300))
-    err = np.abs(Sy - ref) / np.maximum(np.sqrt(rowmag[:, None, :] * np.max(auto_ref, axis=0)[None, None, :]), 1e-300)
+    auto_ref = np.maximum(np.abs(np.einsum("iik->ik", ref[:k])), 1e-300)  # reference autos (k, nf)
+    # every entry relative to (amplitude of its row channel) x (amplitude of its reference channel), so that a reference
+    # recorded in much smaller units is judged as strictly as the others
+    coh = np.abs(ref) / np.sqrt(auto_ref)[None, :, :]
+    rowamp = np.maximum(np.max(coh, axis=1), 1e-300)  # (n_all, nf)
+    err = np.abs(Sy - ref) / (rowamp[:, None, :] * np.sqrt(auto_ref)[None, :, :])
     judged = cond <= 1e8
     if not judged.any():
         j.skip("all-lines-illconditioned")
@@ -94,6 +99,12 @@ def _compare(j, tag, Sy, ref, cond):
     if (~judged).any():
         j.skip("line-cond>1e8")
     j.check(worst <= 1.0, f"{tag}-value", lambda: f"merged spectral matrix differs from the single-setup one: max error/tolerance = {worst:.3e} (max rel. error {np.max(err[:, :, judged]):.3e})")
+
+
+def _cond_eq(G):
+    """condition number of the reference block after diagonal equilibration (units of the channels do not matter)"""
+    d = np.sqrt(np.maximum(np.abs(np.diag(G)), 1e-300))
+    return np.linalg.cond(G / d[:, None] / d[None, :])
 
 
 def _single(case, y):
@@ -122,7 +133,7 @@ def judge_simultaneous(case):
     f, Sy = np.asarray(out[0]), np.asarray(out[1])
     fr, Sr = np.asarray(ref[0]), np.asarray(ref[1])
     j.check(f.shape == fr.shape and np.allclose(f, fr, rtol=1e-12, atol=0), "freq-grid", lambda: f"frequency grids differ: {f[:3]} vs {fr[:3]}")
-    cond = np.array([np.linalg.cond(Sr[:k, :k, q]) for q in range(Sr.shape[2])])
+    cond = np.array([_cond_eq(Sr[:k, :k, q]) for q in range(Sr.shape[2])])
     _compare(j, "simultaneous", Sy, Sr, cond)
     return j
 
@@ -154,7 +165,7 @@ def judge_class(case):
     f, Sy = np.asarray(alg.result.freq), np.asarray(alg.result.Sy)
     fr, Sr = np.asarray(ref[0]), np.asarray(ref[1])
     j.check(f.shape == fr.shape and np.allclose(f, fr, rtol=1e-12, atol=0), "class-freq-grid", lambda: f"{f[:3]} vs {fr[:3]}")
-    cond = np.array([np.linalg.cond(Sr[:k, :k, q]) for q in range(Sr.shape[2])])
+    cond = np.array([_cond_eq(Sr[:k, :k, q]) for q in range(Sr.shape[2])])
     _compare(j, "class", Sy, Sr, cond)
     # the user changes the overlap / estimator on the same algorithm object and runs it again
     pov2, m2 = case.get("pov2"), case.get("method2")
@@ -171,7 +182,7 @@ def judge_class(case):
         raise RuntimeError(f"reference SD_est failed: {ref2!r}")
     j.tag("rerun-changed-params")
     Sr2 = np.asarray(ref2[1])
-    cond2 = np.array([np.linalg.cond(Sr2[:k, :k, q]) for q in range(Sr2.shape[2])])
+    cond2 = np.array([_cond_eq(Sr2[:k, :k, q]) for q in range(Sr2.shape[2])])
     _compare(j, "class-rerun", np.asarray(alg.result.Sy), Sr2, cond2)
     return j
 
@@ -209,7 +220,7 @@ def judge_general(case):
         blk = np.empty((p.shape[0] - k, k, nf), dtype=complex)
         for q in range(nf):
             G = p[:k, :k, q]
-            cond[q] = max(cond[q], np.linalg.cond(G))
+            cond[q] = max(cond[q], _cond_eq(G))
             blk[:, :, q] = p[k:, :k, q] @ np.linalg.solve(G, mean_rr[:, :, q])
         exp.append(blk)
     exp = np.concatenate(exp, axis=0)
